@@ -87,6 +87,33 @@ def run(ctx):
             ctx.violation({'kind': 'operand-mutated'}, 'an operand changed during + or *',
                           {'p': snap_p, 'q': snap_q, 'p_after': wire(p), 'q_after': wire(q)})
         inp = {'p': wp, 'q': wq, 'n': n}
+        # the code's own evaluator (Polynomial.choice_scalar -- what apply_choice and every user of a result reads
+        # values with) against the definition, on operands and results, at every choice vector; then the two laws
+        # through that evaluator and the semiring functions themselves
+        import itertools as _it
+        import implobs as _io
+        from pymwp.semiring import sum_mwp as _sum, prod_mwp as _prod
+        nn = max(n, _io.max_index([wp, wq, ws, wt]) + 1)
+        vecs = list(_it.product(range(3), repeat=nn)) if nn <= 4 else [tuple(rng.randrange(3) for _ in range(nn)) for _ in range(81)]
+        for nm, po, wpo in (('p', p, wp), ('q', q, wq), ('sum', s, ws), ('prod', t, wt)):
+            mm = _io.evaluator_mismatch(po, wpo, vecs)
+            if mm:
+                ctx.violation({'kind': 'evaluator-differs-from-definition', 'in': nm},
+                              f'Polynomial.choice_scalar of {nm} = {po} at {mm["choice"]} gives {mm["choice_scalar"]}, the monomials say {mm["by_definition"]}',
+                              {**inp, 'detail': mm})
+                break
+        else:
+            for c in vecs:
+                rp, rq = p.choice_scalar(*c), q.choice_scalar(*c)
+                vp, vq = rp or 'o', rq or 'o'
+                # product: zero when either operand has NO term for the choice (the property's wording); an explicit
+                # zero monomial is left to the Lean predicate, which knows the stored form
+                want_t = 'o' if (rp is None or rq is None) else (_prod(vp, vq) if 'o' not in (vp, vq) else None)
+                if (s.choice_scalar(*c) or 'o') != _sum(vp, vq) or (want_t is not None and (t.choice_scalar(*c) or 'o') != want_t):
+                    ctx.violation({'kind': 'pointwise-law-fails-through-choice_scalar'},
+                                  f'at choice {list(c)}: p={vp} q={vq} but p+q={s.choice_scalar(*c)} p*q={t.choice_scalar(*c)}', {**inp, 'choice': list(c)})
+                    break
+        ctx.count('evaluator_checked_vectors', len(vecs))
         reqs.append({'op': 'check.C09', **inp, 'sum': ws, 'prod': wt}); metas.append(('check', inp, ws, wt))
         reqs.append({'op': 'model.poly_add', 'p': wp, 'q': wq}); metas.append(('add', inp, ws, wt))
         reqs.append({'op': 'model.poly_times', 'p': wp, 'q': wq}); metas.append(('times', inp, ws, wt))
